@@ -2535,6 +2535,11 @@ class Matrix:
             self.e = components[4]
             self.f = components[5]
             self.render(**kwargs)
+        # An unrendered translation is a Length, which is mutable: a matrix built from another keeps its own.
+        if isinstance(self.e, Length):
+            self.e = Length(self.e)
+        if isinstance(self.f, Length):
+            self.f = Length(self.f)
 
     def __ne__(self, other):
         return not self.__eq__(other)
